@@ -142,6 +142,7 @@
 #include <stdarg.h>
 #include <string.h>
 #include <errno.h>
+#include <limits.h>
 #include <assert.h>
 #include "qinternal.h"
 #include "utilities/qhash.h"
@@ -378,6 +379,12 @@ bool qhasharr_put_by_obj(qhasharr_t *tbl, const void *name, size_t namesize,
             qhasharr_remove_by_idx(tbl, idx);
             return qhasharr_put_by_obj(tbl, name, namesize, data, datasize);
         } else {  // no same key but hash collision
+            // the collision counter of the leading slot is a short.
+            if (tblslots[hash].count == SHRT_MAX) {
+                errno = ENOBUFS;
+                return false;
+            }
+
             // find empty slot
             int idx = find_avail(tbl, hash);
             if (idx < 0) {
